@@ -68,7 +68,7 @@ func (s Step) checks(tier string) int {
 }
 
 func (s Step) shards(tier string) int {
-	if s.Kind == "test" {
+	if s.Kind == "test" && ((tier == "quick" && s.QShards == 0) || (tier != "quick" && s.TShards == 0)) {
 		return 1
 	}
 	if tier == "quick" {
